@@ -36,8 +36,8 @@ m("C01", "seqhdr-compare-lt", SEQH, 'if this_sequence_header_bytes != state["_la
   'if this_sequence_header_bytes < state["_last_sequence_header_bytes"]:')
 m("C01", "no-incomplete-fragment-check", STREAM, '    if state["_fragment_slices_remaining"] != 0:\n        raise SequenceContainsIncompleteFragmentedPicture(',
   '    if False:\n        raise SequenceContainsIncompleteFragmentedPicture(')
-m("C01,C18", "revert-D3-union-edge", "vc2_conformance/symbol_re.py", "nfa_a.final.add_directed_empty_transition(nfa.final)",
-  "nfa_a.final.add_transition(nfa.final)")
+m("C01,C18,C19", "revert-D3", "vc2_conformance/symbol_re.py", "        self.transitions[None].add(dest_node)\n\n    def equivalent_nodes",
+  "        self.transitions[None].add(dest_node)\n        dest_node.transitions[None].add(self)\n\n    def equivalent_nodes")
 m("C01", "frag-contiguity-x-only", FRAG, 'state["fragment_x_offset"] != expected_fragment_x_offset\n            or state["fragment_y_offset"] != expected_fragment_y_offset',
   'state["fragment_x_offset"] != expected_fragment_x_offset')
 m("C01", "odd-fields-check-off", STREAM, 'if state["_num_pictures_in_sequence"] % 2 != 0:', 'if False:')
